@@ -266,9 +266,13 @@ SIGN_RULE = ("sign profile (by shape; thorough adds 600 random messages): every 
              "TxConfig.SignModeHandler().GetSignBytes and the model must return the same bytes (the auth-info and public-key bytes the "
              "harness used are inputs of the model). On the implementation alone: two transactions whose messages differ (type URL or "
              "protobuf bytes) while every other parameter is equal must not share their sign bytes; collisions are classified by the pair "
-             "of kinds or, within a kind, by whether the two messages become equal after the two known JSON normalisations")
+             "of kinds or, within a kind, by whether the two messages become equal after the two known JSON normalisations; only messages that pass "
+             "ValidateBasic take part (each kind is also offered with every field emptied in turn). aol profile: about 4% of the otherwise "
+             "acceptable transactions carry signatures that are not over them (one byte flipped, or made over the same messages with another "
+             "memo): they must be refused (C14-signature-not-bound)")
 prop(id="C14", vfile="Properties/C14.v",
-     runs=lambda tier, seed: [dict(profile="sign", seed=seed, n=_sizes(tier, 1, 2))],
+     runs=lambda tier, seed: [dict(profile="sign", seed=seed, n=_sizes(tier, 1, 2)),
+                              dict(profile="aol", seed=seed + 3, n=_sizes(tier, 40, 800), extra=["-blocks", "8"])],
      rule=SIGN_RULE, assumptions=[
          "timeout_height, tip, fee payer/granter are zero/absent in the modelled transactions (a non-zero value adds one more injectively "
          "encoded field); the auth-info and public-key Any bytes are opaque inputs",
